@@ -89,11 +89,22 @@ def run(tier):
         cases.append({'text': f"x = '' + ({na} {op} {nb})\nsystemLog('after')\nreturn {na} {op} {nb}\n", 'globals': {na: gspec[na], nb: gspec[nb]},
                       'max': 1000, 'timeout': 10})
         meta.append(('operator-script', f'{na} {op} {nb}'))
+    # the same operators in DEBUG mode with a log function (whatever the run reports there, the operation is still null and nothing escapes):
+    # every pair for the operators with an exception path, a sample for the others; must equal the non-debug result
+    for op in OPS:
+        pairs = list(itertools.product(vals, repeat=2))
+        if op not in ('/', '%', '**', '*', '==', '<'):
+            pairs = r.sample(pairs, 60)
+        for (na, _), (nb, _) in pairs:
+            if nonterminating(op, na, nb):
+                continue
+            cases.append({'expr_text': f'{na} {op} {nb}', 'globals': {na: gspec[na], nb: gspec[nb]}, 'builtins': True, 'timeout': 10, 'debug': True})
+            meta.append(('operator-debug', f'{na} {op} {nb}'))
     for na, _ in vals:
         cases.append({'expr_text': f'-{na}', 'globals': {na: gspec[na]}})
         meta.append(('operator', f'-{na}'))
     # (3) host functions that raise
-    for kind in ('raise_zero', 'raise_key', 'raise_type', 'raise_value'):
+    for kind in ('raise_zero', 'raise_key', 'raise_type', 'raise_value', 'raise_empty', 'raise_multiline', 'raise_assert', 'raise_nonascii'):
         for debug in (False, True):
             cases.append({'text': "a = hostFail(1, 2)\nsystemLog('after ' + a)\nb = 1 + hostFail()\nreturn arrayNew(a, b)\n",
                           'globals': {'hostFail': ['hostfn', kind]}, 'debug': debug, 'max': 100})
@@ -133,6 +144,7 @@ def run(tier):
     lib = core.run_impl('lib_fuzz', [{'seed': core.seed() + k, 'n': (12 if tier == 'quick' else 150)} for k in range(16)], shards=16)
 
     dist, nontrivial = {}, set()
+    plain_result = {what: impl[i] for i, (tag, what) in enumerate(meta) if tag == 'operator'}
     for i, ((tag, what), res) in enumerate(zip(meta, impl)):
         dist[tag] = dist.get(tag, 0) + 1
         src = cases[i].get('expr_text') or cases[i].get('text')
@@ -170,6 +182,11 @@ def run(tier):
                                         'expected': {'value': fv, 'reports': 1}, 'got': {'value': res.get('res') or res.get('rt'), 'log': res.get('log')}})
         if tag in ('operator', 'operator-script'):
             nontrivial.add(what)
+        if tag == 'operator-debug':
+            plain = plain_result.get(what)
+            if plain is not None and (res.get('res'), res.get('rt')) != (plain.get('res'), plain.get('rt')):
+                chk.oracle_fail.append({'class': 'debug-mode-changes-the-value-of-an-operation', 'source': what, 'expected': plain.get('res') or plain.get('rt'),
+                                        'got': res.get('res') or res.get('rt')})
     n_lib = 0
     lib_dist = {}
     for part in lib:
